@@ -431,8 +431,8 @@ class Gen:
                         + ["upload"] * 3 + ["upload_at"] + ["post_uri"] * 2 + ["set_children"] * 2 + ["delete"] * 2 + ["post_delete"] * 2
                         + ["rename"] * 2 + ["relink"] * 3 + ["get", "get_json"] + ["put_unlinked", "post_unlinked", "mkdir_unlinked",
                                                                                    "mkdirc_unlinked", "mkdiri_unlinked"] + ["bad"] * 2)
-        rep3 = lambda: rng.choice(["none", "none", "true", "false", "false", "only_files"])
-        rep2 = lambda: rng.choice(["none", "none", "true", "false"])
+        rep3 = lambda: rng.choice(["none", "true", "false", "false", "only_files", "only_files"])
+        rep2 = lambda: rng.choice(["none", "true", "false", "false"])
         fmt = lambda: rng.choice(["none", "none", "chk", "sdmf", "mdmf", "mutable"])
         content = lambda: rng.choice(["c1", "c2", "lit"])
         if op in UNLINKED:
@@ -566,6 +566,63 @@ class Gen:
         return Q("get_json", "GET", d="d1", path=[])
 
 
+# scripted openings (inputs only; judged like every other request): the replace= rules on every kind of slot, metadata
+# through renames / relinks, files (mutable in place, 410, idempotent DELETE), then the seeded generator takes over
+_F = lambda i, w=False: {"id": i, "type": "file", "w": w}
+_D = lambda i, w=True: {"id": i, "type": "dir", "w": w}
+_K = lambda n, c, md="none": {"name": n, "child": c, "md": md}
+TEMPLATES = [
+    [Q("put_file", "PUT", path=["a"], content="c1"),
+     Q("put_file", "PUT", path=["a"], content="c2", replace="false"),
+     Q("put_uri", "PUT", path=["a"], cap=_F("fc2"), replace="false"),
+     Q("post_uri", "POST", name="a", cap=_F("fc2"), replace="false"),
+     Q("mkdir_named", "POST", name="a", replace="false"),
+     Q("upload", "POST", name="a", content="c2", replace="false"),
+     Q("mkdir", "POST", path=["b"]),
+     Q("put_uri", "PUT", path=["b"], cap=_F("fc1"), replace="only_files"),
+     Q("post_uri", "POST", name="b", cap=_F("fc1"), replace="only_files"),
+     Q("mkdir_named", "POST", name="b", replace="false"),
+     Q("mkdirc_named", "POST", name="b", kids=[_K("a", _F("fc1"), "m1")]),
+     Q("put_uri", "PUT", path=["a"], cap=_F("fc2"), replace="only_files"),
+     Q("put_file", "PUT", path=["b", "e2", "a"], content="lit"),
+     Q("mkdir_named", "POST", name="b"),
+     Q("post_uri", "POST", name="a", cap=_D("d2")),
+     Q("put_file", "PUT", path=["a", "b", "a"], content="c1", format="mdmf")],
+    [Q("set_children", "POST", kids=[_K("a", _F("fc1"), "m1"), _K("b", _D("d2"), "m2"), _K("e1", _F("fc2"))]),
+     Q("rename", "POST", name="a", to_name="e2", replace="false"),
+     Q("rename", "POST", name="a", to_name="e2"),
+     Q("set_children", "POST", kids=[_K("e2", _F("flit")), _K("k1", _F("fc1"), "ct")], replace="false"),
+     Q("set_children", "POST", kids=[_K("e2", _F("flit")), _K("k1", _F("fc1"), "ct")]),
+     Q("relink", "POST", name="e1", to_d="d2", to_name="a"),
+     Q("relink", "POST", name="b", to_d="d1", to_path=["b"], to_name="k1"),
+     Q("relink", "POST", d="d2", name="a", to_d="d2", to_path=["k1"], replace="only_files"),
+     Q("rename", "POST", name="b", to_name="b"),
+     Q("relink", "POST", d="d2", name="k1", to_d="d1", to_name="k1", replace="only_files"),
+     Q("rename", "POST", d="d2", name="e1", to_name="a"),
+     Q("relink", "POST", d="d2", name="a", to_d="d1", to_path=["k1", "b"]),
+     Q("relink", "POST", d="d2", name="a", to_d="d1", to_path=["e1"]),
+     Q("relink", "POST", d="d2", name="a", to_d="d1", to_path=["k1"], to_name="e2")],
+    [Q("put_file", "PUT", path=["a"], content="c1", format="sdmf"),
+     Q("put_file", "PUT", path=["a"], content="c2"),
+     Q("put_file", "PUT", path=["a"], content="c1", replace="false"),
+     Q("upload", "POST", name="a", content="lit"),
+     Q("upload_at", "POST", path=["a"], content="c2"),
+     Q("put_file", "PUT", path=["b"], content="c1"),
+     Q("upload_at", "POST", path=["b"], content="c2", replace="false"),
+     Q("upload_at", "POST", path=["b"], content="c2", format="mutable"),
+     Q("get", "GET", path=["a"]),
+     Q("put_uri", "PUT", path=["e2"], cap=_F("f2")),
+     Q("get", "GET", path=["e1"]),
+     Q("delete", "DELETE", path=["a"]),
+     Q("delete", "DELETE", path=["a"]),
+     Q("post_delete", "POST", name="b", t="unlink"),
+     Q("post_delete", "POST", name="b", t="delete"),
+     Q("mkdiri", "POST", path=["k1"], kids=[_K("a", _F("fc1"), "m1")]),
+     Q("mkdiri_unlinked", "POST", kids=[_K("a", _F("fc1"), "m1")]),
+     Q("put_file", "PUT", path=["k2", "a"], content="c1", replace="false", when_done=False)],
+]
+
+
 def run_history(seed, length, big):
     rng = random.Random("X-webapi_ops-%d" % seed)
     web = Web(seed)
@@ -574,6 +631,9 @@ def run_history(seed, length, big):
     for q in PREAMBLE + ([Q("put_unlinked", "PUT", content="c1", format="sdmf")] if rng.random() < 0.5 else []):
         now += 1
         events.append(web.do(q, now))
+    for q in (TEMPLATES[seed % 4] if seed % 4 < len(TEMPLATES) else []):
+        now += 1
+        events.append(web.do(q, now, full=False))
     gen = Gen(rng, web, big)
     while len(events) < length and web.w.g.keypool.i < 42:      # 48 keys in the pool, at most 4 per request
         now += 1
